@@ -26,6 +26,7 @@ type Lemma struct {
 	Body   *SX
 	Induct string
 	Uses   []string
+	Pattern *SX
 	File   string
 }
 
@@ -119,6 +120,9 @@ func loadSpecLib(dir string) (*SpecLib, error) {
 					if x.List[i].isAtom(":induct") {
 						lm.Induct = x.List[i+1].Atom
 					}
+					if x.List[i].isAtom(":pattern") {
+						lm.Pattern = x.List[i+1]
+					}
 					if x.List[i].isAtom(":uses") {
 						for _, u := range x.List[i+1].List {
 							lm.Uses = append(lm.Uses, u.Atom)
@@ -144,8 +148,10 @@ func loadSpecLib(dir string) (*SpecLib, error) {
 }
 
 func (l *Lemma) assertText() string {
-	pat := ""
-	return "(assert (forall " + l.Vars.String() + " " + pat + l.Body.String() + "))"
+	if l.Pattern != nil {
+		return "(assert (forall " + l.Vars.String() + " (! " + l.Body.String() + " :pattern " + l.Pattern.String() + ")))"
+	}
+	return "(assert (forall " + l.Vars.String() + " " + l.Body.String() + "))"
 }
 
 // slice returns the part of the library needed by a query mentioning the given atoms: all sorts, the definitions and
